@@ -653,6 +653,25 @@ pub(crate) async fn fashare(
             bi[r] ^= dm_k[k][r][0] != 0;
         }
         di_bi[r] = if bi[r] { d1[r] } else { d0[r] };
+        // The claimed bits select which of d0 / d1 = d0 ^ delta is opened, so they have to be
+        // checked before anything is opened: the MACs that the other parties claim to hold under
+        // our key must add up to exactly the value we are about to open. Otherwise a party that
+        // misreports its bit obtains d0 ^ delta in addition to the d0 it can compute from its MAC.
+        let mut xor_claimed_macs = 0;
+        for k in (0..n).filter(|k| *k != i) {
+            // position of our own index in the MAC list of party k (which has no entry for k)
+            let start = if i > k { 1 + (i - 1) * 16 } else { 1 + i * 16 };
+            let Ok(mac) = dm_k[k][r][start..start + 16]
+                .try_into()
+                .map(u128::from_be_bytes)
+            else {
+                return Err(Error::ConversionErr);
+            };
+            xor_claimed_macs ^= mac;
+        }
+        if xor_claimed_macs != di_bi[r] {
+            return Err(Error::AShareWrongMAC);
+        }
     }
 
     let di_bi_k = broadcast(channel, i, n, "fashare di_bi", &di_bi).await?;
